@@ -375,6 +375,10 @@ void h_receive_buffer(void) { SETUP; uint8_t m[8]; if (nondet_bool()) { G_alloc.
 UNITS.append(dict(name='nrf52_isr', extracts=ISR_EX, code=ISR_CODE, object_bits=10,
                   enforce=['radio_interrupt_handler', 'receive_buffer'], replace=[]))
 
+# the consumer: link_layer<>::handle_received_data hands each stored PDU to the upper layers exactly once and in order (contract in lle.py)
+import lle
+UNITS.append(lle.unit(['handle_received_data'], name='consumer'))
+
 META = dict(
     level='proof',
     explanation="Step contracts on the real ll_data_pdu_buffer member functions (received, acknowledge(bool), acknowledge(read_buffer), next_transmit, "
@@ -385,12 +389,17 @@ META = dict(
                 "ring; the oldest transmit PDU is removed iff the central's NESN differs from its SN, otherwise it is sent again with the SN it was "
                 "committed with; an internal empty PDU takes a fresh SN and is repeated until acknowledged; commit assigns alternating SNs in commit "
                 "order; the reply always carries NESN == next expected. nRF52 ISR (radio_interrupt_handler, receive_buffer): a PDU that could not be "
-                "stored (no receive buffer: 3 byte scratch area) or failed its CRC reaches next_transmit() only - nothing is acknowledged.",
+                "stored (no receive buffer: 3 byte scratch area) or failed its CRC reaches next_transmit() only - nothing is acknowledged. Consumer "
+                "(link_layer<>::handle_received_data, real body with a loop contract over a queue of any content): the stored PDUs are taken from the head of the queue in "
+                "order; each is handed to exactly one handler - LL control PDUs to handle_ll_control_data, data PDUs to L2CAP - and freed exactly once, right after it was "
+                "handled; a PDU L2CAP or the link layer cannot take now (no transmit buffer, L2CAP refuses, link disconnecting) stays at the head and is not freed.",
     assumptions=["whole-history reliability (every committed PDU is eventually delivered exactly once, in order, under any loss pattern) follows from "
                  "these step contracts by the alternating-bit argument (sender repeats until NESN != SN, receiver accepts iff SN == next expected); "
                  "that argument is on paper, each step is machine checked",
                  "the two pdu_ring_buffer members are represented by an abstract FIFO stub (next_end = oldest, pop_end removes it, more_than_one, "
                  "push_front appends) - the behaviour C18 proves for the real ring; the stub itself is hand written",
+                 "the receive queue behind next_ll_l2cap_received / free_ll_l2cap_received (ll_l2cap_sdu_buffer, C19; ring, C18) is a ghost array of up to 5 PDUs with symbolic "
+                 "content in the consumer unit; handle_ll_control_data / L2CAP input are abstract there with symbolic results per PDU",
                  "Radio::lock_guard (interrupt masking) is dropped; Hardware:: calls of the ISR are abstract and recorded",
                  "the ISR is assumed to fire only in the states it handles (its own assert)"],
     trusted_base=["nRF52 radio / timer / CCM hardware"],
